@@ -343,7 +343,8 @@ func (w *grWorld) addPeer(name string) {
 	case "S":
 		gr = &api.GracefulRestart{Enabled: true, RestartTime: 150}
 	}
-	if c.Restart && gr.Enabled {
+	if c.Restart {
+		// the speaker under test is restarting: every neighbour is flagged (the API knob is per neighbour)
 		gr.LocalRestarting = true
 		gr.DeferralTime = uint32(c.Deferral)
 	}
